@@ -491,6 +491,32 @@ func checkC16(r *Result) {
 		}
 		r.check(len(sites) >= 1, "COHORT", "(x/bridge/keeper.Keeper).EncodeAndHashValidatorSet # collects one power per validator", "-", fmt.Sprint(len(sites)))
 	}
+	// PowerDiff: per validator address the entry is old power, minus new power where both exist, or minus new power alone
+	if pd := P.Func("(x/bridge/keeper.Keeper).PowerDiff"); pd == nil {
+		r.broken("anchor PowerDiff does not resolve")
+	} else {
+		tmd := NewTermer()
+		var forms []string
+		for _, b := range pd.Blocks {
+			for _, in := range b.Instrs {
+				if mu, ok := in.(*ssa.MapUpdate); ok {
+					v := tmd.Of(mu.Value)
+					switch {
+					case v.Op == "-" && len(v.Args) == 2 && v.Args[0].Contains("lookup") && v.Args[1].Contains("GetPower"):
+						forms = append(forms, "old-new")
+					case v.Op == "neg" && v.Contains("GetPower"):
+						forms = append(forms, "-new")
+					case (v.Op == "convert" || strings.HasPrefix(v.Op, "convert") || strings.HasPrefix(v.Op, "call:") || strings.HasPrefix(v.Op, "changetype")) && v.Contains("GetPower") && !v.Contains("lookup"):
+						forms = append(forms, "old")
+					default:
+						forms = append(forms, "other: "+clip(v.String(), 80))
+					}
+				}
+			}
+		}
+		sort.Strings(forms)
+		r.check(fmt.Sprint(forms) == "[-new old old-new]", "UPDATE-RULE", "(x/bridge/keeper.Keeper).PowerDiff # per-address entries: old power, old - new where both exist, -new for a new validator", P.Pos(pd.Pos()), fmt.Sprint(forms))
+	}
 	// the records of one checkpoint are stored together: no success path writes some of them and returns
 	for _, spec := range []struct {
 		fn   string
